@@ -6,6 +6,8 @@ import OsacaVerif.Lemmas.DGraph
 
   `DG.isMemload st ld-instruction state` is the model of `is_memload` (with the AArch64 prefix repair);
   `DG.updateState` of `_update_reg_changes` (with the copy-of-a-copy repair).
+  Repaired code (repo-fix.diff, notes/C06.md): a symbolic displacement (`Mem.sym`) is comparable only with the very same
+  symbol (`DG.dispDelta`); the scan starts from `DG.startState p` = the producer's changes AND its own post-index write-back.
 -/
 namespace OsacaVerif.Props.C06
 open OsacaVerif OsacaVerif.Text OsacaVerif.DG
